@@ -5,6 +5,8 @@
 package explore
 
 import (
+	"crypto/sha256"
+	"encoding/hex"
 	"encoding/json"
 	"fmt"
 	"math/bits"
@@ -12,6 +14,7 @@ import (
 	"runtime"
 	"runtime/debug"
 	"sort"
+	"strconv"
 	"strings"
 	"sync"
 	"sync/atomic"
@@ -131,7 +134,7 @@ func (b *BFS[W]) Run(r *ev.Run) {
 		r.AddScenario(ev.ScenarioStat{Name: b.Name, States: 1, Transitions: 1, WallS: time.Since(t0).Seconds()})
 		return
 	}
-	seen[b.Key(w0)] = struct{}{}
+	seen[compactKey(b.Key(w0))] = struct{}{}
 	if b.Visit != nil {
 		b.Visit(w0, nil)
 	}
@@ -204,7 +207,7 @@ func (b *BFS[W]) Run(r *ev.Run) {
 						continue
 					}
 					localOut[wi][b.Ops[op].Name+"="+out] = struct{}{}
-					lc = append(lc, cand{b.Key(w), p})
+					lc = append(lc, cand{compactKey(b.Key(w)), p})
 					if b.Close != nil {
 						b.Close(w)
 					}
@@ -345,6 +348,18 @@ func (p *Product) one(idx []int) (string, *ev.Fail) {
 		}
 	}
 	return out, fl
+}
+
+// compactKey keeps short canonical keys as they are and replaces long ones (a representation signature of a bitmap with
+// tens of thousands of chunks is half a megabyte) by a 128-bit digest plus the length: the seen-set of a closure with
+// 10^5 such states would otherwise need tens of gigabytes. A digest collision would merge two states (hiding one); at
+// 128 bits this is not a practical concern.
+func compactKey(k string) string {
+	if len(k) <= 160 {
+		return k
+	}
+	sum := sha256.Sum256([]byte(k))
+	return hex.EncodeToString(sum[:16]) + "#" + strconv.Itoa(len(k))
 }
 
 // strideOrder returns a fixed permutation of 0..total-1: i -> i*stride mod total with stride
